@@ -9,7 +9,7 @@ import copy
 import math
 from fractions import Fraction as F
 
-from mc import builder
+from mc import builder, canon, fileio
 from refs import sm as rs
 
 ID = "C02"
@@ -351,6 +351,9 @@ def run_doc(doc, lab, case, ctx, key, nontrivial=True):
         ctx.check("raises", False, site=dict(site, exc=type(e).__name__, stops=doc.get("stops")), case=case, observed=f"{type(e).__name__}: {e}"[:300], expected="a mapset")
         return
     ctx.passed("raises")
+    if not doc.get("crlf") and len(devs) <= 1:
+        # the file entry point: read_file of a file holding this text denotes what read(text) gave
+        fileio.check_file_entry_points(ctx, "sm", text, ms, canon.canon_mapset, dict(route="file-entry"), case, check_write=False)
     if not ctx.check("charts.count", len(ms.maps) == len(den["charts"]), site=site, case=case, observed=len(ms.maps), expected=len(den["charts"])):
         return
     for ci, (m, d) in enumerate(zip(ms.maps, den["charts"])):
